@@ -435,7 +435,7 @@ pub fn validate_iso_8859(text: &[u8]) -> TextValidationOutcome {
 /// Check whether the given byte slice contains only valid characters for a
 /// Date value representation.
 pub fn validate_da(text: &[u8]) -> TextValidationOutcome {
-    if text.iter().cloned().all(|c| c.is_ascii_digit()) {
+    if text.iter().cloned().all(|c| c == b'\\' || c.is_ascii_digit()) {
         TextValidationOutcome::Ok
     } else {
         TextValidationOutcome::NotOk
